@@ -18,6 +18,8 @@ import (
 	"strings"
 
 	"github.com/jackc/pgx/v5/pgconn"
+
+	storagecommon "github.com/formancehq/ledger/internal/storage/common"
 )
 
 func pgErr(code, msg, constraint string) *pgconn.PgError {
@@ -52,11 +54,13 @@ type conn struct {
 	commitFault FaultKind
 }
 
-func (c *conn) Prepare(string) (driver.Stmt, error) { return nil, errors.New("simpg: prepare unsupported") }
-func (c *conn) Close() error                        { c.sess.Kill(); return nil }
-func (c *conn) Begin() (driver.Tx, error)           { return c.BeginTx(context.Background(), driver.TxOptions{}) }
-func (c *conn) Ping(context.Context) error          { return nil }
-func (c *conn) IsValid() bool                       { return !c.sess.dead }
+func (c *conn) Prepare(string) (driver.Stmt, error) {
+	return nil, errors.New("simpg: prepare unsupported")
+}
+func (c *conn) Close() error               { c.sess.Kill(); return nil }
+func (c *conn) Begin() (driver.Tx, error)  { return c.BeginTx(context.Background(), driver.TxOptions{}) }
+func (c *conn) Ping(context.Context) error { return nil }
+func (c *conn) IsValid() bool              { return !c.sess.dead }
 func (c *conn) ResetSession(context.Context) error {
 	if c.sess.dead {
 		return driver.ErrBadConn
@@ -309,6 +313,16 @@ func (w *World) runStmt(ctx context.Context, c *conn, fn func() error) error {
 			return ctx.Err()
 		}
 	}
+}
+
+// unmodelled: a read shape the stub does not model. In profiles that send arbitrary queries
+// (lenientReads) the stub refuses it the way the storage layer refuses an invalid query; elsewhere the
+// workload generator has a bug.
+func (w *World) unmodelled(format string, a ...any) error {
+	if w.lenientReads {
+		return storagecommon.NewErrInvalidQuery(format, a...)
+	}
+	return w.harnessErr(format, a...)
 }
 
 func (w *World) harnessErr(format string, a ...any) error {
